@@ -393,7 +393,7 @@ def rule_parse_resets(rep: Report, rid="C15.reset") -> None:
     kw = dict(file="python/gherkin/parser.py", line=P.fi.node.lineno, function=P.fi.qualname)
     first = min([P.index(n) for n, c in P.ev("read_token") + P.ev("start_rule")], default=-1)
     rb = P.ev("reset_builder")
-    ok = len(rb) == 1 and rb[0][0][2][0] == ("attr", P.selft, "ast_builder") and P.index(rb[0][0]) < first and not nf.guards_in_ctx(rb[0][1]) and not nf.loops_in_ctx(rb[0][1])
+    ok = len(rb) == 1 and rb[0][0][2][0] == ("attr", P.selft, N.PARSER_BUILDER) and P.index(rb[0][0]) < first and not nf.guards_in_ctx(rb[0][1]) and not nf.loops_in_ctx(rb[0][1])
     rep.ob(rid, "parse() resets the builder unconditionally before anything is started or read", ok, **kw, expected="self.ast_builder.reset() first",
            found=[n[1] for n, c in P.events][:8])
     # the matcher used: the context's matcher; every alternative of it is reset before the first read
